@@ -45,7 +45,7 @@ Fixpoint check_body_drop (T : tenv) (l : list gassign) (drops : list bool) : boo
   end.
 
 Definition check_types_drop (fp : flatprog) (drops : list bool) (T : tenv) : bool :=
-  check_init (map ga_var (fp_init fp)) [] T (fp_init fp) && check_body_drop T (fp_body fp) drops.
+  check_init T (fp_init fp) && check_body_drop T (fp_body fp) drops.
 
 (* ---- compaction of distributions: merge states that agree on the listed variables.
    Used only to make the executable oracle fast; cross-checked against the plain [run] for
@@ -78,3 +78,30 @@ Fixpoint src_moments_c_aux (vs : list var) (p : prog) (ms : list mono) (d : dist
   match N with O => [] | S N' => src_moments_c_aux vs p ms (compact vs (bind d (iter no_law p))) N' end.
 Definition src_moments_c (vs : list var) (p : prog) (ms : list mono) (N : nat) : list (list (Z * positive)) :=
   src_moments_c_aux vs p ms (compact vs (exec_block no_law (p_init p) st0)) N.
+
+(* ---- search for a state on which a row of a system is not the one-step expectation ---- *)
+Fixpoint sdot (r : list Qc) (x : list Qc) : Qc :=
+  match r, x with a :: r', b :: x' => (a * b + sdot r' x')%Qc | _, _ => 0%Qc end.
+Fixpoint find_idx {A} (f : A -> bool) (l : list A) (i : nat) : option nat :=
+  match l with [] => None | a :: l' => if f a then Some i else find_idx f l' (S i) end.
+
+Definition row_bad (fp : flatprog) (ms : list mono) (s : state) (mr : mono * list Qc) : bool :=
+  negb (Qc_eqb (E (fstep no_law fp s) (eval_mono (fst mr))) (sdot (snd mr) (map (fun m => eval_mono m s) ms))).
+
+Definition row_search_at (fp : flatprog) (ms : list mono) (A : list (list Qc)) (d : dist state) : option nat :=
+  fold_right (fun ws acc =>
+    match acc with Some i => Some i | None =>
+      if nonzero (fst ws) then find_idx (row_bad fp ms (snd ws)) (combine ms A) 0 else None end) None d.
+
+Fixpoint row_search_aux (vs : list var) (fp : flatprog) (ms : list mono) (A : list (list Qc)) (d : dist state) (n N : nat)
+  : option (nat * nat) :=
+  match row_search_at fp ms A d with
+  | Some i => Some (n, i)
+  | None => match N with O => None | S N' => row_search_aux vs fp ms A (compact vs (bind d (fstep no_law fp))) (S n) N' end
+  end.
+Definition row_search (vs : list var) (fp : flatprog) (T : tenv) (ms : list mono) (A : list (list Qc)) (N : nat) : option (nat * nat) :=
+  row_search_aux vs fp ms A (compact vs (exec_gas no_law (fp_init fp) (typed_start T))) 0 N.
+
+Definition init_search (fp : flatprog) (ms : list mono) (v : list Qc) : option nat :=
+  find_idx (fun mv : mono * Qc => negb (Qc_eqb (E (exec_gas no_law (fp_init fp) st0) (eval_mono (fst mv))) (snd mv)))
+           (combine ms v) 0.
